@@ -1173,7 +1173,7 @@ void ScriptThread::CharToInt(Event& ev)
 {
     str c = ev.GetString(1);
 
-    ev.AddInteger(c[0u]);
+    ev.AddInteger(c.length() ? c[0u] : 0);
 }
 
 /*
